@@ -39,7 +39,8 @@ def legal_imm_sample(k):
     t = k[0]
     if t in ('i', 'inz'):
         _, lo, hi, sc = k
-        vals = [lo, hi - (hi % sc), sc, -sc if lo < 0 else 2 * sc, (lo + hi) // 2 // sc * sc, 3 * sc, 5 * sc if 5 * sc <= hi else sc, hi // 3 // sc * sc]
+        vals = [lo, hi - (hi % sc), sc, -sc if lo < 0 else 2 * sc, (lo + hi) // 2 // sc * sc, 3 * sc, 5 * sc if 5 * sc <= hi else sc, hi // 3 // sc * sc,
+                -2 * sc if lo <= -2 * sc else 4 * sc]
         return [v for v in dict.fromkeys(vals) if isa.kind_legal(k, v) is not None]
     if t == 'upper':
         return [0, 1, -1, 0x7ffff, -0x80000, 0x80000, 0xfffff, 0x12345]
@@ -218,6 +219,7 @@ def explore_names(ctx, names, prop):
         ctx.sample({'name': c[0], 'ops': c[1], 'aq': c[2], 'rl': c[3], 'impl': list(i)})
     # text front end on a sample of the tuples: same word as the direct call, errors as AssemblerError, no output
     step = 23 if ctx.quick() else 3
+    batch = []          # (line, expected bytes) of the sampled lines that assemble alone: assembled again TOGETHER below
     for k in range(0, len(cases), step):
         name, ops, aq, rl = cases[k]
         if any(isinstance(o, str) and (o.strip() != o or o == '' or ' ' in o) for o in ops):
@@ -241,6 +243,8 @@ def explore_names(ctx, names, prop):
             if got != ('ok', want):
                 ctx.cex('text line "{}" gives {} but the encoder gives {}'.format(line, got[1].hex() if got[0] == 'ok' else got[1], want.hex()),
                         inp, got[1].hex() if got[0] == 'ok' else got[1], want.hex(), {'kind': 'text-mismatch', 'name': name})
+            else:
+                batch.append((line, want))
             # the same line with every register operand written as a CONSTANT that names it (`R0 = a1`): resolve_register_aliases
             # rebuilds the item, and every other operand (immediate, aq / rl, fence sets, CSR number) must survive that
             kinds = isa.SPEC_ALL[name]
@@ -273,6 +277,70 @@ def explore_names(ctx, names, prop):
             elif got[1] != 'AssemblerError' and prop == 'C06':
                 ctx.cex('text line "{}" fails with {} instead of AssemblerError'.format(line, got[1]), inp, got[1],
                         'AssemblerError', {'kind': 'text-wrong-exception', 'name': name, 'exc': got[1]})
+    # ... and, per mnemonic, every accepted operand tuple of up to 40 register assignments (all their immediates: -1 next to -2, the
+    # range edges, 0) as ONE program: same mnemonic, same registers, different immediates side by side
+    groups = {}
+    for c, i in zip(cases, impl):
+        name, ops, aq, rl = c
+        if i[0] != 'ok' or not isinstance(i[1], int) or (aq is None) != (rl is None):
+            continue
+        if any(isinstance(o, str) and (o.strip() != o or o == '' or ' ' in o) for o in ops):
+            continue
+        kinds = isa.SPEC_ALL[name]
+        regs = tuple(str(o) for o, kd in zip(ops, kinds) if isinstance(kd, str))
+        mag = sum(abs(o) for o, kd in zip(ops, kinds) if not isinstance(kd, str) and isinstance(o, int))
+        groups.setdefault((name, regs), []).append((mag, text_line(name, ops, aq, rl), struct.pack('<H' if compressed(name) else '<I', i[1])))
+    batch2, seen_names = [], {}
+    for (name, regs), lines in groups.items():
+        if len(lines) < 2 or seen_names.get(name, 0) >= 40:
+            continue
+        seen_names[name] = seen_names.get(name, 0) + 1
+        # the 16 smallest immediates (0, 1, -1, 2, -2 ...) and the 8 largest
+        lines.sort(key=lambda t: t[0])
+        batch2 += [(l, w) for _, l, w in lines[:16] + lines[16:][-8:]]
+    check_batches(ctx, asm, batch + batch2)
+
+
+def check_batches(ctx, asm, batch, size=300):
+    """The lines that assemble alone, assembled TOGETHER in one program: each line must still give its own word (an instruction's
+    encoding may not depend on the other instructions of the program -- a per-program cache, a shared mutable operand ...)."""
+    for s0 in range(0, len(batch), size):
+        part = batch[s0:s0 + size]
+        src = '\n'.join(l for l, _ in part) + '\n'
+        want = b''.join(w for _, w in part)
+        ctx.evaluations += 1
+        ctx.count('text-batches')
+        try:
+            got = bytes(asm.assemble(src))
+        except Exception as e:
+            ctx.cex('{} lines that assemble one by one fail together: {}'.format(len(part), harness.exc_class(e)),
+                    {'source': src[:2000]}, harness.exc_class(e), 'the concatenation of the single-line outputs', {'kind': 'text-batch'})
+            continue
+        if got != want:
+            off, bad, j = 0, None, 0
+            for j, (l, w) in enumerate(part):
+                if got[off:off + len(w)] != w:
+                    bad = (l, got[off:off + len(w)].hex(), w.hex())
+                    break
+                off += len(w)
+            # shrink: an earlier line that alone disturbs the bad one
+            small = None
+            if bad:
+                for e, we in part[:j]:
+                    two = e + '\n' + bad[0] + '\n'
+                    try:
+                        g2 = bytes(asm.assemble(two))
+                    except Exception:
+                        continue
+                    if g2 != we + part[j][1]:
+                        small = (two, g2.hex(), (we + part[j][1]).hex())
+                        break
+            if small:
+                ctx.cex('after "{}" the line "{}" gives {} but alone it gives {}'.format(small[0].split('\n')[0], bad[0], bad[1], bad[2]),
+                        {'source': small[0]}, small[1], small[2], {'kind': 'text-batch'})
+            else:
+                ctx.cex('inside a program of {} lines, line "{}" gives {} but alone it gives {}'.format(len(part), bad[0] if bad else '?',
+                        bad[1] if bad else '?', bad[2] if bad else '?'), {'source': src}, got.hex(), want.hex(), {'kind': 'text-batch'})
 
 
 def raw_named(name, ops, aq, rl):
